@@ -149,6 +149,8 @@ pub fn run(case: &Value) -> Value {
         "async:request" => request(case),
         "async:modifiers" => modifiers(case),
         "async:clone" => clone_case(case),
+        "async:script" => crate::script::run(case),
+        "async:syncdiff" => crate::script::syncdiff(case),
         _ => json!({"r": "unknown-cmd", "cmd": case["cmd"]}),
     }
 }
